@@ -508,7 +508,7 @@ def combos(tier, curve, level):
     gen_b = [("mul", s["mid"]), ("mul", 2), ("mul_add", s["k2"], s["k1"]), ("verify", "good"), ("verify", "bad"), ("xy",), ("to_bytes", "compressed"),
              ("eq",), ("copy_mul", s["mid"]), ("keygen", s["k1"]), ("sign", s["k2"])]
     pub_a = [("scale",), ("to_affine",), ("mul", s["mid"]), ("mul_add_other", s["k1"], s["k2"]), ("mul_add", s["k1"], s["k2"]), ("verify", "good"),
-             ("xy",), ("to_bytes", "uncompressed"), ("eq",), ("eq_rev",), ("add",), ("radd",)]
+             ("xy",), ("to_bytes", "uncompressed"), ("eq",), ("eq_rev",), ("add",), ("radd",), ("neg",), ("double",)]
     pub_b = [("scale",), ("xy",), ("to_affine",), ("mul", s["big"]), ("verify", "good"), ("verify", "bad"), ("to_bytes", "hybrid"), ("eq",), ("eq_rev",),
              ("mul_add_other", s["k2"], s["k1"]), ("add",), ("double",), ("neg",), ("copy_mul", 5)]
     pre_a = [("verify", "good"), ("mul", s["big"])]
@@ -595,7 +595,7 @@ def plan_instr_helpers(tier):
 
 A_NAMES = {
     "gen": ["mul", "rmul", "mul_add", "verify", "keygen", "sign"],
-    "pub": ["scale", "to_affine", "mul", "mul_add_other", "mul_add", "verify", "xy", "to_bytes", "eq", "eq_rev", "add", "radd", "x", "y"],
+    "pub": ["scale", "to_affine", "mul", "mul_add_other", "mul_add", "verify", "xy", "to_bytes", "eq", "eq_rev", "add", "radd", "x", "y", "neg", "double"],
     "vkpre": ["verify", "mul", "mul_add_other"],
     "genz": ["mul", "rmul", "mul_add", "verify", "scale", "to_affine", "xy", "to_bytes", "mul_add_other"],
 }
